@@ -787,13 +787,43 @@ def validation_before_job(prog, an, rep):
         v = k.methods.get('validate_endpoint_data')
         if v is None:
             continue
-        ms = [x for x in prog.calls_in(v) if dotted(x.func) == 're.match']
-        got = sorted((src(x.args[0]), src(x.args[1])) for x in ms)
-        want = [('BRANCH_REGEXP', 'branch')]
+        from ..rules import reaching_value
+        mod = prog.by_name[API + '.gwf.branches']
+
+        def text_of(p_):
+            """The pattern text, and the module constant it is if any."""
+            if isinstance(p_, ast.Name):
+                rv = reaching_value(an, v, p_)
+                if rv is not None:
+                    return text_of(rv)
+                try:
+                    return module_const(prog, mod, p_.id)
+                except AnalysisError:
+                    return None
+            if isinstance(p_, ast.Call) and \
+                    dotted(p_.func) == 're.compile' and p_.args:
+                return text_of(p_.args[0])
+            try:
+                t_ = const_value(p_)
+            except AnalysisError:
+                return None
+            return t_ if isinstance(t_, str) else None
+        got = []
+        for x in prog.calls_in(v):
+            if dotted(x.func) in ('re.match', 're.fullmatch') and \
+                    len(x.args) == 2:
+                got.append((text_of(x.args[0]), src(x.args[1])))
+            elif isinstance(x.func, ast.Attribute) and \
+                    x.func.attr in ('match', 'fullmatch') and \
+                    len(x.args) == 1 and text_of(x.func.value) is not None:
+                got.append((text_of(x.func.value), src(x.args[0])))
+        want = [(module_const(prog, mod, 'BRANCH_REGEXP'), 'branch')]
         if 'branch_from' in params:
-            want.append(('BRANCH_FROM_REGEXP', "json['branch_from']"))
+            want.append((module_const(prog, mod, 'BRANCH_FROM_REGEXP'),
+                         "json['branch_from']"))
         rep.evaluated()
-        rep.check(got == sorted(want), R, '%s matches %s' % (cname, want),
+        rep.check(sorted(got, key=str) == sorted(want, key=str), R,
+                  '%s matches %s' % (cname, [s_ for _, s_ in want]),
                   v.where(), '%s validates with %s' % (cname, got))
 
 
